@@ -20,7 +20,7 @@ from harness.core import Ctx, VERIF, enc_labels
 RULE = (
     "cases come from one SplitMix64 state: clusters of related names (a base name and variants: ASCII case swapped "
     "on the whole name / one label / one octet, one octet moved to a neighbour in the pool "
-    "{00,01,2d,2e,30,39,40,41,5a,5b,5c,5d,5e,5f,60,61,7a,7b,7f,80,fe,ff}, a label truncated or extended by 00, a label "
+    "{00,01,09,0a,0d,20,2d,2e,30,39,40,41,5a,5b,5c,5d,5e,5f,60,61,7a,7b,7f,80,fe,ff}, a label truncated or extended by 00, a label "
     "prepended or dropped, relativity flipped, a label boundary moved across / removed at / inserted at an inner 2e, 00 "
     "or nothing so that the labels joined by that separator coincide), label lengths from {1,2,3,5,31,62,63}, names pushed to 253..255 wire "
     "octets; pairs and triples are drawn mostly from one cluster; successor/predecessor cases add labels ending in "
@@ -39,7 +39,7 @@ ASSUMPTIONS = [
     "IDNA/unicode paths are outside the model",
 ]
 
-OCTETS = [0x00, 0x01, 0x2D, 0x2E, 0x30, 0x39, 0x40, 0x41, 0x5A, 0x5B, 0x5C, 0x5D, 0x5E, 0x5F, 0x60, 0x61, 0x7A, 0x7B, 0x7F,
+OCTETS = [0x00, 0x01, 0x09, 0x0A, 0x0D, 0x20, 0x2D, 0x2E, 0x30, 0x39, 0x40, 0x41, 0x5A, 0x5B, 0x5C, 0x5D, 0x5E, 0x5F, 0x60, 0x61, 0x7A, 0x7B, 0x7F,
           0x80, 0xFE, 0xFF]
 LETTERS = [0x61, 0x62, 0x41, 0x42, 0x7A, 0x5A]
 LEN_POOL = [1, 1, 1, 2, 2, 3, 5, 31, 62, 63]
@@ -126,6 +126,13 @@ def gen_labels(rng, absolute=None, budget=255):
     push = rng.chance(1, 10)
     if push:
         k = 12
+    if rng.chance(1, 40):
+        # the maximum number of labels: up to 127 one- or two-octet labels
+        n_ = min(rng.choice([100, 126, 127, 127]), (budget - 0) // 2)
+        labels = [rng.bytes(1 if (budget - 2 * n_) <= i else rng.choice([1, 1, 2]), LETTERS + [0x5B, 0x40]) for i in range(n_)]
+        while sum(len(x) + 1 for x in labels) > budget:
+            labels.pop()
+        return labels + ([b""] if absolute else [])
     for _ in range(k):
         if budget < 2:
             break
@@ -433,6 +440,57 @@ def check_pair(ctx, a, b, rep):
         ctx.count("pair.equal-up-to-case")
 
 
+class SubName(dns.name.Name):
+    """a user subclass of Name (must be a Name for every comparison entry point)"""
+    __slots__ = ()
+
+
+def name_routes(labels, rng_pick):
+    """the same name through another object route"""
+    import copy
+    import pickle
+    N = dns.name.Name(labels)
+    makers = [lambda: SubName(labels), lambda: dns.name.Name(tuple(labels)), lambda: dns.name.Name(x for x in labels),
+              lambda: pickle.loads(pickle.dumps(N)), lambda: copy.deepcopy(N), lambda: pickle.loads(pickle.dumps(SubName(labels))),
+              lambda: dns.name.from_text(N.to_text(), None),
+              lambda: (dns.name.from_wire(N.to_wire(), 0)[0] if is_abs(labels) else N.derelativize(dns.name.root).relativize(dns.name.root)),
+              lambda: dns.name.Name([l.decode("latin-1").encode("latin-1") for l in labels])]
+    return makers[rng_pick % len(makers)]()
+
+
+def check_routes(ctx, a, b, pick, rep):
+    """every comparison entry point gives the same answers whatever object route produced the operands"""
+    A, B = dns.name.Name(a), dns.name.Name(b)
+    try:
+        A2, B2 = name_routes(a, pick), name_routes(b, pick // 9)
+    except Exception as e:
+        ctx.fail("C06/route/construction", f"{type(e).__name__} for {a!r} / {b!r} (route {pick})", rep)
+        return
+    if list(A2.labels) != a or list(B2.labels) != b:
+        ctx.fail("C06/route/labels", f"route {pick}: {list(A2.labels)!r} / {list(B2.labels)!r} for {a!r} / {b!r}", rep)
+        return
+    def view(X, Y):
+        f = X.fullcompare(Y)
+        return (int(f[0]), sgn(f[1]), f[2], bool(X == Y), bool(X != Y), bool(X < Y), bool(X <= Y), bool(X > Y), bool(X >= Y),
+                X.is_subdomain(Y), X.is_superdomain(Y), hash(X) == hash(A), Y in {X: 1}, Y in [X], len({X, Y}))
+    base = view(A, B)
+    for X, Y, nm in ((A2, B, "left"), (A, B2, "right"), (A2, B2, "both")):
+        got = view(X, Y)
+        if got != base:
+            ctx.fail("C06/route/coherence", f"{type(X).__name__}/{type(Y).__name__} (route {pick}, {nm}): "
+                     f"(relation, order, nlabels, ==, !=, <, <=, >, >=, sub, sup, hash, in dict, in list, |set|) = {got}, "
+                     f"plain Name objects give {base}: {a!r} vs {b!r}", rep)
+            break
+    # the same object on both sides, and repeated hashing
+    for X in (A, A2):
+        f = X.fullcompare(X)
+        h1, h2 = hash(X), hash(X)
+        if (int(f[0]), f[1], f[2]) != (3, 0, len(a)) or not (X == X) or X != X or X < X or X > X or not (X <= X) or not (X >= X) \
+                or h1 != h2 or h1 != hash(A) or not X.is_subdomain(X) or not X.is_superdomain(X):
+            ctx.fail("C06/order/reflexive", f"{type(X).__name__} compared with itself: fullcompare {tuple(f)}: {a!r}", rep)
+    ctx.count("pair.routes")
+
+
 def check_name(ctx, a, rep):
     A = dns.name.Name(a)
     ctx.corr(f"n.hash {enc_labels(a)}", f"ok {A.__hash__()}", rep["case"])
@@ -448,6 +506,7 @@ def eval_case(ctx: Ctx, c: dict):
         a, b = unhexl(c["a"]), unhexl(c["b"])
         check_pair(ctx, a, b, rep)
         check_name(ctx, a, rep)
+        check_routes(ctx, a, b, c.get("route", (len(a) * 7 + len(b) * 3 + sum(a[0][:1]) if a else len(b))), rep)
     elif k == "triple":
         a, b, cc = unhexl(c["a"]), unhexl(c["b"]), unhexl(c["c"])
         A, B, C = dns.name.Name(a), dns.name.Name(b), dns.name.Name(cc)
@@ -795,7 +854,7 @@ def generate(ctx: Ctx, scale, rng):
             b = rng.choice(cl) if rng.chance(5, 6) else gen_labels(rng)
             if a == b and rng.chance(4, 5):
                 b = variant(rng, a)
-            c = {"kind": "pair", "a": hexl(a), "b": hexl(b)}
+            c = {"kind": "pair", "a": hexl(a), "b": hexl(b), "route": rng.below(81)}
             ctx.case(("pair", tuple(a), tuple(b)), nontrivial=(a != b), sample=c)
             eval_case(ctx, c)
     for _ in range(n(1500)):
@@ -808,7 +867,7 @@ def generate(ctx: Ctx, scale, rng):
             b = [bytes(swap_octet(ch) for ch in l) for l in b]
         elif m == 1:
             a, b = b, a
-        c = {"kind": "pair", "a": hexl(a), "b": hexl(b)}
+        c = {"kind": "pair", "a": hexl(a), "b": hexl(b), "route": rng.below(81)}
         ctx.case(("pair", tuple(a), tuple(b)), sample=c)
         eval_case(ctx, c)
         ctx.count("pair.boundary-move." + ("same-count" if len(a) == len(b) else "other-count"))
@@ -823,6 +882,27 @@ def generate(ctx: Ctx, scale, rng):
         names = rng.shuffle(names)
         c = {"kind": "sort", "names": [hexl(x) for x in names]}
         ctx.case(("sort", str(names)))
+        eval_case(ctx, c)
+    for _ in range(n(2)):
+        names = []
+        for _ in range(30):
+            names += cluster(rng, 10)
+        names = rng.shuffle(names)
+        c = {"kind": "sort", "names": [hexl(x) for x in names]}
+        ctx.case(("sort", str(len(names)), str(names[:3])))
+        eval_case(ctx, c)
+        cl = []
+        for _ in range(25):
+            cl += cluster(rng, 8)
+        script = [["set", hexl(x), i] for i, x in enumerate(cl)]
+        for _ in range(120):
+            nm = rng.choice(cl)
+            m = rng.below(4)
+            script.append(["del", hexl(nm)] if m == 0 else ["get", hexl(variant(rng, nm) if rng.chance(1, 2) else nm)] if m <= 2
+                          else ["set", hexl([bytes(swap_octet(ch) for ch in l) for l in nm]), rng.below(100)])
+        script = [st for st in script if wf(unhexl(st[1]))]
+        c = {"kind": "ndhist", "script": script}
+        ctx.case(("ndhist-big", str(len(script)), str(script[:2])))
         eval_case(ctx, c)
     for _ in range(n(5000)):
         a, o, p = gen_succ_case(rng)
